@@ -193,7 +193,7 @@ Proof.
     destruct (th_running h) eqn:Hr; [discriminate|].
     destruct (finished (upd_thr s t (mkThr None [] false (th_exited h))) t c) as [s1 e1] eqn:Hfin.
     injection Hst as <- <-. apply Nat.lt_le_incl. eapply finish_work_lt; eauto. unfold Inv; auto.
-  - destruct (in_unreg s c); [discriminate|]. destruct (lmem c (s_cl s)); [|discriminate].
+  - destruct (in_unreg s c); [discriminate|]. destruct (lmem c (s_cl s) || sd_done (s_sd s)); [|discriminate].
     unfold unreg_begin in Hst. destruct (outstanding s c); injection Hst as <- <-; unfold pool_work; sst; lia.
   - destruct (tget c (s_unreg s)) as [[[|]|]|]; try discriminate. injection Hst as <- <-. unfold pool_work; sst. lia.
   - destruct (tget c (s_unreg s)) as [[|]|]; try discriminate. injection Hst as <- <-. unfold pool_work, unreg_end; sst.
